@@ -241,7 +241,15 @@ func RunC11(c *Ctx, r *Report) {
 	r.Assumptions = append(r.Assumptions, "registries are immutable after init (C18)")
 	r.NotDecided = append(r.NotDecided, "the wire round trip of a transform (slots of C03/C05)", "proposals with more than one transform per type")
 	r.Extra["exhaustive"] = true
+	c.registryRules(r, prefix, "")
+	c.saBuildRules(r, prefix)
+	c.saLookupUnconditionalRule(r, prefix)
+	c.tvValueOnlyUnderTVRule(r, prefix+"tv-value-only-under-tv")
+}
 
+// registryRules: the registry rules of C11, for every registry (only == "") or for the registry of one
+// package (e.g. "security/dh" for C09; floors scale down accordingly).
+func (c *Ctx) registryRules(r *Report, prefix string, only string) {
 	ruleReg := prefix + "registry.reference"
 	r.Rule(ruleReg, "every registered descriptor equals one row of the RFC reference table (identifier, key-length attribute, key length, output length, hash, key-length guard) and every row is registered", 18)
 	ruleClosure := prefix + "closure"
@@ -256,6 +264,9 @@ func RunC11(c *Ctx, r *Report) {
 	r.Rule(ruleTV, "ToTransform copies TransformID and getAttribute results into the transform, sets its own transform type, and sets AttributeFormat = TV exactly when an attribute without variable-length value is present", 7)
 
 	for _, rs := range regSpecs {
+		if only != "" && rs.Rel != only {
+			continue
+		}
 		strs, _, err := c.registryEntries(rs.Rel, rs.Strings)
 		if err != nil {
 			r.undecided(ruleClosure, rs.Rel+"."+rs.Strings, "-", err.Error())
@@ -440,8 +451,46 @@ func RunC11(c *Ctx, r *Report) {
 			r.Check(len(a) == len(b), ruleAgree, rs.Rel+": same name sets", "-", fmt.Sprintf("%d names each", len(a)), fmt.Sprintf("%d vs %d names", len(a), len(b)))
 		}
 	}
-	c.saBuildRules(r, prefix)
-	c.saLookupUnconditionalRule(r, prefix)
+	if only != "" {
+		for k, v := range r.Floors {
+			if strings.HasPrefix(k, prefix) && v > 1 {
+				switch k {
+				case ruleReg, ruleClosure, ruleForeign, ruleDecode, ruleAgree, ruleTV:
+					r.Floors[k] = 1
+				}
+			}
+		}
+		r.Floors[ruleAgree] = 0 // a package with one registry has nothing to agree with
+		for k := range r.Floors {
+			if false {
+				_ = k
+			}
+		}
+	}
+}
+
+// tvValueOnlyUnderTVRule: the SA decoder stores the second half-word of an attribute into AttributeValue only
+// for the TV format. The stringifiers decide on (type, value) alone, so a TLV attribute whose LENGTH landed
+// in AttributeValue would be taken for a key-length value.
+func (c *Ctx) tvValueOnlyUnderTVRule(r *Report, rule string) {
+	r.Rule(rule, "every decode-side store of Transform.AttributeValue is conditioned on AttributeFormat != 0 (TV); the TLV form stores only the variable-length value", 1)
+	st := c.BuildSlotTables()
+	t := st.Dec["message.Transform"]
+	if t == nil {
+		r.undecided(rule, "decode table of message.Transform", "-", "no decode table")
+		return
+	}
+	n, bad := 0, ""
+	for _, b := range t.Bits {
+		if b.Field != "message.Transform.AttributeValue" {
+			continue
+		}
+		n++
+		if !strings.Contains(b.Cond, "message.Transform.AttributeFormat != 0") && !strings.Contains(b.Cond, "message.Transform.AttributeFormat == 1") {
+			bad = "bit " + fmt.Sprint(b.FBit) + " is stored when {" + b.Cond + "}"
+		}
+	}
+	r.Check(n > 0 && bad == "", rule, "message.Transform.AttributeValue", "-", fmt.Sprintf("%d bit rows, all under the TV format", n), "AttributeValue is stored outside the TV format: "+bad)
 }
 
 // decodeShapeRule: structure of DecodeTransform*.
